@@ -329,10 +329,22 @@ func (e *c01Env) concRound(r *kit.Rand, round int) {
 			ctx.staleAll = true // the ancestors of the migration's groups changed during the round
 		}
 	}
-	for _, d := range detaches {
+	ctx.tainted = map[string]bool{}
+	for _, d := range detaches { // in the order they were issued
 		if d.possiblyLimited(m.nd, recs) {
 			d.limited = true
 			c.Count("detach_of_possibly_max_limited_group", 1)
+			for a := range d.ancestors {
+				ctx.tainted[a] = true
+			}
+		}
+		for g := range d.subtree {
+			if ctx.tainted[g] {
+				for a := range d.newAncestors {
+					ctx.tainted[a] = true
+				}
+				break
+			}
 		}
 	}
 	sort.Strings(qkinds)
